@@ -4,6 +4,7 @@ import (
 	"bytes"
 	"context"
 	"fmt"
+	"strings"
 	"sync"
 	"sync/atomic"
 	"testing"
@@ -453,6 +454,9 @@ func TestC06(t *testing.T) {
 			"arrival order × light and bridge block-store wiring, and over a scripted exchange feeding hostile blocks then the honest block per CID; cascades [store,shrex,bitswap] and [shrex,bitswap] × local store holds/misses × peer faults); "+
 			"distinct = (getter, request type, behaviour sequence, honest?, context mode, wiring); each case = one real getter call judged against the reference square")
 	defer run.Finish()
+	defer run.WatchDeadlock("C06 a getter call never returns (stable state: blocked on a lock of the retrieval path): ", func(f string) bool {
+		return strings.Contains(f, "shwap/getters.") || strings.Contains(f, "shrex_getter.") || strings.Contains(f, "shwap/p2p/bitswap.") || strings.Contains(f, "shrex/peers.") || strings.Contains(f, "shwap/p2p/shrex.")
+	})()
 	seed := vkit.Seed()
 	c := &c06{run: run, t: t, seed: seed, rng: vkit.NewRNG(seed, "C06"), bsWarm: make(chan struct{})}
 	c.sqs = []*c06Square{
